@@ -201,7 +201,9 @@ fn hunt_prop(prop: &str) -> ! {
         // highlighting only adds colour codes
         "C15" => {
             let sgr = Regex::new("\u{1b}\\[[0-9;]*m").unwrap();
-            let ws = words(&['a', 'b', '1'], 3);
+            let mut ws = words(&['a', 'b', '1'], 3);
+            ws.extend(words(&['$', ')', '(', '^', 'a'], 2));      // metacharacters: as members of a (coloured) character class they look like anchors / parentheses (F9)
+            ws.sort(); ws.dedup();
             for set in sets(&ws, 2) { for v in [vec![], vec!["--verbose"], vec!["--repetitions"], vec!["--digits", "--verbose"], vec!["--no-anchors", "--verbose", "--repetitions"], vec!["--ignore-case", "--verbose"], vec!["--capture-groups"]] {
                 tried += 1;
                 let mut b = RegExpBuilder::from(&set); apply(&mut b, &v);
